@@ -184,3 +184,15 @@ Proof.
 Qed.
 
 End Proofs.
+
+(* decryption looks at the password only through the key derived from it and the carried salt: two passwords deriving the same
+   key give the same result.  PBKDF2-HMAC has such pairs by construction (HMAC zero-pads its key to the block size, so P and
+   P ++ [0] derive the same key; a password longer than 128 bytes is equivalent to its SHA-512 digest): for them "another password"
+   is accepted, and the per-instance premise of [emip3_rejects_non_images] is false.  This is a property of the external KDF. *)
+Theorem emip3_depends_on_key_only (P : prims) fx tp tp' tc pw pw' c :
+  unhex tp = Some pw -> unhex tp' = Some pw' -> unhex tc = Some c ->
+  kdf P pw (firstn 32 c) = kdf P pw' (firstn 32 c) ->
+  decrypt_with_password_gen P fx tp tc = decrypt_with_password_gen P fx tp' tc.
+Proof.
+  intros H1 H2 H3 K. unfold decrypt_with_password_gen, unhex_r. rewrite H1, H2, H3. cbn [bind]. rewrite K. reflexivity.
+Qed.
